@@ -6,6 +6,7 @@ import (
 	"go/ast"
 	"go/printer"
 	"go/token"
+	"sort"
 	"strings"
 )
 
@@ -45,6 +46,7 @@ type tcomp struct {
 	rets    map[string]*tref
 	retList []string
 	skipped []string
+	hooks   []thook
 }
 
 func exprString(e ast.Node) string {
@@ -88,25 +90,59 @@ func (c *tcomp) retRef(kind string) *tref {
 // stmts compiles a statement list; cont is where control goes after the last statement.
 func (c *tcomp) stmts(list []ast.Stmt, cont *tref) *tref {
 	var real []ast.Stmt
+	hooksBefore := map[int][]string{} // verifAt points sitting right before real statement i (len(real) = before cont)
 	for _, s := range list {
+		if name, ok := hookName(s); ok {
+			hooksBefore[len(real)] = append(hooksBefore[len(real)], name)
+			continue
+		}
 		if c.skip(s) {
 			continue
 		}
 		real = append(real, s)
-	}
-	if len(real) == 0 {
-		return cont
 	}
 	entries := make([]*tref, len(real)+1)
 	for i := range real {
 		entries[i] = &tref{idx: -1}
 	}
 	entries[len(real)] = cont
+	for i, names := range hooksBefore {
+		for _, n := range names {
+			c.hooks = append(c.hooks, thook{n, entries[i]})
+		}
+	}
+	if len(real) == 0 {
+		return cont
+	}
 	for i, s := range real {
 		e := c.stmt(s, entries[i+1])
 		entries[i].alias = e
 	}
 	return entries[0]
+}
+
+type thook struct {
+	name string
+	at   *tref // the instruction control reaches right after the hook call
+}
+
+// hookName recognises `verifAt("<point>", …)`.
+func hookName(s ast.Stmt) (string, bool) {
+	es, ok := s.(*ast.ExprStmt)
+	if !ok {
+		return "", false
+	}
+	call, ok := es.X.(*ast.CallExpr)
+	if !ok {
+		return "", false
+	}
+	if id, ok := call.Fun.(*ast.Ident); !ok || id.Name != "verifAt" || len(call.Args) == 0 {
+		return "", false
+	}
+	if v, ok := evalString(call.Args[0], nil); ok {
+		return v, true
+	}
+	return "?", true
 }
 
 func (c *tcomp) skip(s ast.Stmt) bool {
@@ -220,7 +256,7 @@ func (c *tcomp) stmt(s ast.Stmt, cont *tref) *tref {
 	return nil
 }
 
-func compileTL(fd *ast.FuncDecl, name string) (string, []string) {
+func compileTL(fd *ast.FuncDecl, name string) (string, []string, string) {
 	c := &tcomp{src: "tasklane.go:" + name, halt: &tref{idx: -1}, rets: map[string]*tref{}}
 	entry := c.stmts(fd.Body.List, c.halt)
 	for _, k := range c.retList {
@@ -260,7 +296,12 @@ func compileTL(fd *ast.FuncDecl, name string) (string, []string) {
 			lines = append(lines, ".halt")
 		}
 	}
-	return "[\n  " + strings.Join(lines, ",\n  ") + "]", c.skipped
+	sort.SliceStable(c.hooks, func(i, j int) bool { return c.hooks[i].at.get() < c.hooks[j].at.get() })
+	var hk []string
+	for _, h := range c.hooks {
+		hk = append(hk, fmt.Sprintf("(%q, %d)", h.name, h.at.get()))
+	}
+	return "[\n  " + strings.Join(lines, ",\n  ") + "]", c.skipped, "[" + strings.Join(hk, ", ") + "]"
 }
 
 func extractTaskLane() {
@@ -274,8 +315,10 @@ func extractTaskLane() {
 		if fd == nil {
 			die("%s: func %s not found", src, fn[0])
 		}
-		prog, skipped := compileTL(fd, fn[0])
+		prog, skipped, hooks := compileTL(fd, fn[0])
 		fmt.Fprintf(&b, "/-- compiled from `%s` -/\ndef %s : Prog := %s\n\n", fn[0], fn[1], prog)
+		fmt.Fprintf(&b, "/-- verification hook points of `%s`: (point, instruction reached right after the hook) -/\ndef %sHooks : List (String × Nat) := %s\n\n", fn[0], fn[1], hooks)
+		facts["tasklane."+fn[0]+".hooks"] = hooks
 		facts["tasklane."+fn[0]+".prog"] = strings.Split(strings.Trim(prog, "[]\n "), ",\n  ")
 		facts["tasklane."+fn[0]+".skipped"] = skipped
 		deferDone := false
